@@ -89,6 +89,7 @@ type Session struct {
 	OutSeq      uint32
 	ReqPriv     byte
 	ivCtr       uint32
+	seenSeq     map[uint32]bool // inbound session sequence numbers accepted so far
 }
 
 // Handler produces the completion code and response data for an accepted IPMI
@@ -578,6 +579,16 @@ func (b *BMC) inSession(ev *Event, s []byte, plen int) []byte {
 		ev.Problem = prob
 		return nil
 	}
+	// sliding window (6.12.13): a sequence number that was already accepted is a
+	// duplicate and is silently dropped
+	if se.seenSeq == nil {
+		se.seenSeq = map[uint32]bool{}
+	}
+	if se.seenSeq[ev.Seq] {
+		ev.Problem = fmt.Sprintf("session sequence number %d was already used on this session: duplicate dropped", ev.Seq)
+		return nil
+	}
+	se.seenSeq[ev.Seq] = true
 	ev.Plain = plain
 	return b.ipmi(ev, plain, func(m []byte) []byte { return se.Wrap(m, WrapOpts{}) })
 }
